@@ -370,3 +370,122 @@ func wiringCases(rnd *rand.Rand, d delays, w wiring, n int, yield func(vt.Case))
 		yield(vt.Case{"kind": "wiring", "ages": ages, "covered": rnd.Intn(2) == 0})
 	}
 }
+
+// ---------------------------------------------------------------------------------------------
+// Phase 2, kind "gwlag": the same composition observed through a REAL store gateway.  The aligned5 world
+// (real blocks) is put into a bucket with deletion marks of the given ages; a store.BucketStore syncs on the
+// bucket as it was `lag` seconds ago, then the compactor (its sync + the cleaner, wired from the source of
+// runCompact) runs now, then the gateway is queried WITHOUT another sync.
+// ---------------------------------------------------------------------------------------------
+
+var gwlagWorld *world
+
+func runGwLagCase(t *testing.T, c vt.Case, d delays, w wiring, scratch string) vt.Event {
+	ctx := context.Background()
+	logger := log.NewNopLogger()
+	if gwlagWorld == nil {
+		ww, err := buildWorld(layouts["aligned5"], scratch)
+		if err != nil {
+			t.Fatalf("gwlag world: %v", err)
+		}
+		gwlagWorld = ww
+	}
+	ww := gwlagWorld
+	ages := vt.Ints(c["ages"]) // one per original block, -1 = unmarked
+	lag := vt.Int(c["lag"])
+	inner := objstore.NewInMemBucket()
+	if err := ww.fill(inner); err != nil {
+		panic(err)
+	}
+	now := time.Now()
+	mark := func(k, age int) {
+		dm, _ := json.Marshal(metadata.DeletionMark{ID: ww.ids[k], Version: metadata.DeletionMarkVersion1, DeletionTime: now.Unix() - int64(age), Details: "c34 gwlag"})
+		if err := inner.Upload(ctx, path.Join(ww.ids[k].String(), metadata.DeletionMarkFilename), bytes.NewReader(dm)); err != nil {
+			panic(err)
+		}
+	}
+	// the bucket `lag` ago
+	for k, a := range ages {
+		if a >= 0 && a > lag {
+			mark(k, a-lag)
+		}
+	}
+	g := &gateway{name: "lagging", lagging: true, inner: inner, scratch: scratch, w: ww}
+	if err := g.start(); err != nil {
+		panic(err)
+	}
+	defer g.stop()
+	serr := g.sync()
+	loadedULIDs, err := sgFetch(inner, w.storeDelay)
+	if err != nil {
+		panic(err)
+	}
+	idOf := map[string]int{}
+	for k, id := range ww.ids {
+		idOf[id.String()] = k + 1
+	}
+	loaded := []int{}
+	for _, u := range loadedULIDs {
+		loaded = append(loaded, idOf[u])
+	}
+	sort.Ints(loaded)
+	// now: the marks as they are today, the compactor's sync and cleaner
+	for k, a := range ages {
+		if a >= 0 {
+			mark(k, a)
+		}
+	}
+	ins := objstore.WithNoopInstr(inner)
+	filter := block.NewIgnoreDeletionMarkFilter(logger, ins, w.filterDelay, 2)
+	cf, err := block.NewMetaFetcher(logger, 2, ins, block.NewConcurrentLister(logger, ins), "", nil, []block.MetadataFilter{
+		block.NewLabelShardedMetaFilter(nil), block.NewConsistencyDelayMetaFilter(logger, 0, nil), filter,
+		block.NewReplicaLabelRemover(logger, nil), block.NewDeduplicateFilter(2)})
+	if err != nil {
+		panic(err)
+	}
+	if _, _, err := cf.Fetch(ctx); err != nil {
+		panic(err)
+	}
+	cnt := func(n string) prometheus.Counter { return prometheus.NewCounter(prometheus.CounterOpts{Name: n}) }
+	del, cerr := compact.NewBlocksCleaner(logger, inner, filter, w.cleanerDelay, cnt("a"), cnt("b")).DeleteMarkedBlocks(ctx)
+	deleted := []int{}
+	for id := range del {
+		deleted = append(deleted, idOf[id.String()])
+	}
+	sort.Ints(deleted)
+	counts, extra, qerr := g.query() // no sync in between
+	if serr != "" {
+		qerr = serr
+	}
+	orig := []any{}
+	for _, toks := range ww.origTok {
+		orig = append(orig, toks)
+	}
+	ev := flagsEvent(d, "source")
+	ev["kind"] = "gwlag"
+	ev["deleted"], ev["views"] = deleted, []any{map[string]any{"lagSec": lag, "loaded": loaded}}
+	ev["err"] = ""
+	if cerr != nil {
+		ev["err"] = cerr.Error()
+	}
+	ev["orig"], ev["counts"], ev["extra"], ev["qerr"] = orig, counts, extra, qerr
+	ev["filterSec"], ev["cleanerSec"], ev["storeSec"] = int(w.filterDelay/time.Second), int(w.cleanerDelay/time.Second), int(w.storeDelay/time.Second)
+	return ev
+}
+
+func gwlagCases(rnd *rand.Rand, d delays, w wiring, n int, yield func(vt.Case)) {
+	all := wiringAges(d, w)
+	dirs := []int{0, 1, -1, 1, 1, -1, 1, 1, -1, 1, -1, 1}
+	lags := []int{0, d.sync, 23 * 3600, 6 * 3600}
+	for i := 0; i < n; i++ {
+		ages := make([]int, 5)
+		for j := range ages {
+			c := rnd.Intn(len(all))
+			ages[j] = all[c] + dirs[c]*rnd.Intn(1500)
+			if i < len(all) && j == 0 {
+				ages[j] = all[i] // every age class at least once
+			}
+		}
+		yield(vt.Case{"kind": "gwlag", "ages": ages, "lag": lags[i%len(lags)]})
+	}
+}
